@@ -99,6 +99,8 @@ func (s Step) String() string {
 		return fmt.Sprintf("copy directory %q to %q", s.Path, s.Args[0])
 	case "dir2file":
 		return fmt.Sprintf("replace directory %q by a regular file", s.Path)
+	case "forget-global-config":
+		return "remove ~/.goitconfig"
 	case "tz":
 		return fmt.Sprintf("tz %+d min", s.TZ)
 	default:
@@ -507,6 +509,13 @@ func (e *Exec) apply(c *Ctx) error {
 		return b.WriteFile(st.Path+"/"+st.Args[0], st.Data)
 	case "rmdir":
 		return b.RemoveAll(st.Path)
+	case "forget-global-config":
+		// the user's global configuration is gone (another HOME, a removed ~/.goitconfig)
+		err := os.Remove(filepath.Join(b.Home, ".goitconfig"))
+		if os.IsNotExist(err) {
+			return nil
+		}
+		return err
 	case "touch":
 		return b.Touch(st.Path, time.Unix(1_000_000_000+int64(e.H.StepNo)*977, 0))
 	case "tz":
